@@ -826,9 +826,13 @@ bool varintBP128IsSorted64(const uint64_t *values, size_t count) {
 }
 
 size_t varintBP128GetCount(const uint8_t *src, size_t srcBytes) {
-    (void)srcBytes;
-    uint64_t count;
-    varintTaggedGet64(src, &count);
+    /* The count header is a tagged varint of 1-9 bytes: read it only if it
+     * lies inside the srcBytes the caller says are there, else report 0. */
+    uint64_t count = 0;
+    if (varintTaggedGet(src, srcBytes > 9 ? 9 : (int32_t)srcBytes, &count) ==
+        0) {
+        return 0;
+    }
     return (size_t)count;
 }
 
